@@ -105,6 +105,7 @@ type interpreter struct {
 	bigUsed   []*bigBuf
 	guards    map[*omap]guard
 	locksets  map[*omap]map[*mutexObj]bool
+	watches   map[*value]watch // memory that spawned goroutines may only access atomically or under a write lock
 	deferGo   bool // template mode: goroutines started by initialisers are started after the snapshot
 	pendingGo []pendingGo
 }
@@ -210,6 +211,11 @@ func visitInstr(fr *frame, instr ssa.Instruction) continuation {
 		// no-op
 
 	case *ssa.UnOp:
+		if len(fr.i.watches) > 0 && instr.Op == token.MUL {
+			if a, ok := fr.get(instr.X).(*value); ok {
+				fr.i.watchCheck(a, false)
+			}
+		}
 		fr.env[instr] = fr.i.unopFr(fr, instr, fr.get(instr.X))
 
 	case *ssa.BinOp:
@@ -279,6 +285,9 @@ func visitInstr(fr *frame, instr ssa.Instruction) continuation {
 	case *ssa.Store:
 		switch a := fr.get(instr.Addr).(type) {
 		case *value:
+			if len(fr.i.watches) > 0 {
+				fr.i.watchCheck(a, true)
+			}
 			store(typeparams.MustDeref(instr.Addr.Type()), a, fr.get(instr.Val))
 		case symptr:
 			fr.i.symStore(a, fr.get(instr.Val))
@@ -696,7 +705,8 @@ func runFrame(fr *frame) {
 			}
 			ex := fr.i.ex
 			ex.steps++
-			if ex.steps > ex.run.cfg.StepBudget {
+			if ex.steps > ex.run.cfg.StepBudget && !(ex.template && ex.steps <= 100*ex.run.cfg.StepBudget) {
+				// (the concrete set-up phase, run once per worker, gets a hundred times the budget)
 				ex.inconclusive("step budget exhausted on a path (divergence?)")
 				panic(pathEnd{"step-budget"})
 			}
